@@ -27,7 +27,8 @@ type Case struct {
 	Write  bool   `json:"write"`  // switch file writing on right after Start
 	Start2 bool   `json:"start2"` // issue a second Start while the first is in force
 	Seed   uint64 `json:"seed"`
-	Ops    []int  `json:"ops"` // one entry per Stop caller: launched once that many points were released after Start returned
+	Ops    []int  `json:"ops"`    // one entry per Stop caller: launched once that many points were released after Start returned (-1: once the source has ended by itself)
+	Silent bool   `json:"silent"` // abaco: the hardware stops sending right after Start (the reader gives up after 5 s)
 }
 
 var points = []string{"start:starting", "start:sampled", "start:channels", "start:prepared", "start:activated",
@@ -176,8 +177,24 @@ func runOnce(c Case, watchdog time.Duration) (outcome, error) {
 				tmp, _ = os.MkdirTemp("", "verif_c10_")
 				src.Any.WriteControl(&dastard.WriteControlConfig{Request: "START", Path: tmp, WriteLJH22: true})
 			}
+			if startClass == "ok" && c.Silent && src.Silence != nil {
+				src.Silence()
+			}
 		}
-		for startReturned && launched < len(c.Ops) && stepsAfter >= c.Ops[launched] {
+		due := func() bool {
+			if !startReturned || launched >= len(c.Ops) {
+				return false
+			}
+			if c.Ops[launched] >= 0 {
+				return stepsAfter >= c.Ops[launched]
+			}
+			if lockParked() {
+				return false
+			}
+			v, ok := stateOf(src.Any, watchdog)
+			return ok && v == dastard.Inactive
+		}
+		for due() {
 			launched++
 			s.Go("stop", func() string {
 				if src.Any.Stop() == nil {
@@ -209,7 +226,7 @@ func runOnce(c Case, watchdog time.Duration) (outcome, error) {
 			continue
 		}
 		// nothing is parked: somebody is running or blocked; wait for an arrival or a return
-		if startReturned && launched < len(c.Ops) {
+		if startReturned && launched < len(c.Ops) && c.Ops[launched] >= 0 {
 			stepsAfter = c.Ops[launched] // nothing left to release: do not keep the remaining callers waiting
 			continue
 		}
@@ -291,14 +308,19 @@ func runCase(c Case) (lib.Result, error) {
 		W, S bool
 		Sd   uint64
 		O    []int
-	}{c.Kind, c.Fault, c.Write, c.Start2, c.Seed, c.Ops})}
-	out, err := runOnce(c, 4*time.Second)
+		Si   bool
+	}{c.Kind, c.Fault, c.Write, c.Start2, c.Seed, c.Ops, c.Silent})}
+	w := 4 * time.Second
+	if c.Silent {
+		w = 9 * time.Second // the Abaco reader's own time-out is 5 s
+	}
+	out, err := runOnce(c, w)
 	if err != nil {
 		return res, err
 	}
 	if out.Hung {
 		// a watchdog expiry is inconclusive first: run the case once more with a five times longer limit
-		out2, err := runOnce(c, 20*time.Second)
+		out2, err := runOnce(c, 5*w)
 		if err != nil {
 			return res, err
 		}
@@ -404,6 +426,7 @@ func gen(seed uint64, tier string) []interface{} {
 	add(Case{Kind: "abacoudp", Fault: "prepare", Seed: 1, Ops: []int{0}}) // UDP receiver configured, no packets arriving
 	add(Case{Kind: "abaco", Fault: "prepare", Seed: 1, Ops: []int{}})
 	add(Case{Kind: "lancero", Fault: "runlate", Seed: 1, Ops: []int{1}})
+	add(Case{Kind: "abaco", Fault: "none", Seed: 1, Write: true, Silent: true, Ops: []int{-1}}) // the source ends by itself while writing
 	kinds := []string{"triangle", "simpulse", "erroring", "abaco", "lancero"}
 	for _, k := range kinds {
 		for _, f := range faultsOf[k] {
